@@ -1060,14 +1060,6 @@ func (client *client) publishHandler(pub *packets.Publish) *codes.Error {
 		}
 	}
 
-	if pub.Retain {
-		if len(pub.Payload) == 0 {
-			srv.retainedDB.Remove(string(pub.TopicName))
-		} else {
-			srv.retainedDB.AddOrReplace(msg.Copy())
-		}
-	}
-
 	var err error
 	var topicMatched bool
 	if !dup {
@@ -1083,6 +1075,14 @@ func (client *client) publishHandler(pub *packets.Publish) *codes.Error {
 			opts = req.IterationOptions
 		}
 		if msg != nil && err == nil {
+			// The retained store holds what the OnMsgArrived hook let through (it can reject, drop or rewrite the message).
+			if msg.Retained {
+				if len(msg.Payload) == 0 {
+					srv.retainedDB.Remove(msg.Topic)
+				} else {
+					srv.retainedDB.AddOrReplace(msg.Copy())
+				}
+			}
 			topicMatched = client.deliverMessage(client.opts.ClientID, msg, opts)
 		}
 	}
